@@ -761,9 +761,190 @@ func TestGovcBoundedC02(t *testing.T) {
 }
 '''
 
+
+C06 = r'''
+func bl06clone(v *blVal) *blVal {
+	if v == nil {
+		return nil
+	}
+	c := &blVal{kind: v.kind, str: v.str}
+	if v.h != nil {
+		c.h = map[string]string{}
+		for k, x := range v.h {
+			c.h[k] = x
+		}
+	}
+	if v.s != nil {
+		c.s = map[string]bool{}
+		for k := range v.s {
+			c.s[k] = true
+		}
+	}
+	return c
+}
+
+func bl06cmds() []blCmd {
+	var cmds []blCmd
+	set := func(m blModel, key, v string) { m[key] = &blVal{kind: "string", str: v} }
+	keys := []string{"a", "b"}
+	cmds = append(cmds, blCmd{[]string{"set", "a", "AAAA"}, func(m blModel) string { set(m, "a", "AAAA"); return "str:OK" }})
+	cmds = append(cmds, blCmd{[]string{"hset", "a", "f", "1"}, func(m blModel) string {
+		v := m["a"]
+		if v != nil && v.kind != "hash" {
+			return blWrong
+		}
+		if v == nil {
+			v = &blVal{kind: "hash", h: map[string]string{}}
+			m["a"] = v
+		}
+		n := 1
+		if _, ok := v.h["f"]; ok {
+			n = 0
+		}
+		v.h["f"] = "1"
+		return fmt.Sprintf("int:%%d", n)
+	}})
+	cmds = append(cmds, blCmd{[]string{"sadd", "a", "x"}, func(m blModel) string {
+		v := m["a"]
+		if v != nil && v.kind != "set" {
+			return blWrong
+		}
+		if v == nil {
+			v = &blVal{kind: "set", s: map[string]bool{}}
+			m["a"] = v
+		}
+		n := 1
+		if v.s["x"] {
+			n = 0
+		}
+		v.s["x"] = true
+		return fmt.Sprintf("int:%%d", n)
+	}})
+	for _, k := range keys {
+		k := k
+		// in-place writers: they must change exactly the key they name
+		cmds = append(cmds, blCmd{[]string{"setbit", k, "6", "1"}, func(m blModel) string {
+			v := m[k]
+			if v != nil && v.kind != "string" {
+				return blWrong
+			}
+			b := []byte{}
+			if v != nil {
+				b = []byte(v.str)
+			}
+			if len(b) == 0 {
+				b = []byte{0}
+			}
+			old := (b[0] >> 1) & 1
+			b[0] |= 2
+			set(m, k, string(b))
+			return fmt.Sprintf("int:%%d", old)
+		}})
+		cmds = append(cmds, blCmd{[]string{"append", k, "z"}, func(m blModel) string {
+			v := m[k]
+			if v != nil && v.kind != "string" {
+				return blWrong
+			}
+			cur := ""
+			if v != nil {
+				cur = v.str
+			}
+			set(m, k, cur+"z")
+			return fmt.Sprintf("int:%%d", len(cur)+1)
+		}})
+		cmds = append(cmds, blCmd{[]string{"hset", k, "g", "2"}, func(m blModel) string {
+			v := m[k]
+			if v != nil && v.kind != "hash" {
+				return blWrong
+			}
+			if v == nil {
+				v = &blVal{kind: "hash", h: map[string]string{}}
+				m[k] = v
+			}
+			n := 1
+			if _, ok := v.h["g"]; ok {
+				n = 0
+			}
+			v.h["g"] = "2"
+			return fmt.Sprintf("int:%%d", n)
+		}})
+		cmds = append(cmds, blCmd{[]string{"srem", k, "x"}, func(m blModel) string {
+			v := m[k]
+			if v == nil {
+				return "int:0"
+			}
+			if v.kind != "set" {
+				return blWrong
+			}
+			n := 0
+			if v.s["x"] {
+				n = 1
+				delete(v.s, "x")
+			}
+			if len(v.s) == 0 {
+				delete(m, k)
+			}
+			return fmt.Sprintf("int:%%d", n)
+		}})
+		cmds = append(cmds, blCmd{[]string{"del", k}, func(m blModel) string {
+			n := 0
+			if m[k] != nil {
+				n = 1
+			}
+			delete(m, k)
+			return fmt.Sprintf("int:%%d", n)
+		}})
+		cmds = append(cmds, blCmd{[]string{"exists", k}, func(m blModel) string {
+			if m[k] != nil {
+				return "int:1"
+			}
+			return "int:0"
+		}})
+	}
+	cmds = append(cmds, blCmd{[]string{"copy", "a", "b"}, func(m blModel) string {
+		if m["a"] == nil || m["b"] != nil {
+			return "int:0"
+		}
+		m["b"] = bl06clone(m["a"])
+		return "int:1"
+	}})
+	cmds = append(cmds, blCmd{[]string{"copy", "a", "b", "replace"}, func(m blModel) string {
+		if m["a"] == nil {
+			return "int:0"
+		}
+		m["b"] = bl06clone(m["a"])
+		return "int:1"
+	}})
+	cmds = append(cmds, blCmd{[]string{"rename", "a", "b"}, func(m blModel) string {
+		if m["a"] == nil {
+			return "err:ERR"
+		}
+		m["b"] = m["a"]
+		delete(m, "a")
+		return "str:OK"
+	}})
+	cmds = append(cmds, blCmd{[]string{"renamenx", "b", "a"}, func(m blModel) string {
+		if m["b"] == nil {
+			return "err:ERR"
+		}
+		if m["a"] != nil {
+			return "int:0"
+		}
+		m["a"] = m["b"]
+		delete(m, "b")
+		return "int:1"
+	}})
+	return cmds
+}
+
+func TestGovcBoundedC06(t *testing.T) {
+	blRun(t, "C06", []string{"a", "b"}, bl06cmds(), func(args []string) bool { return false }, %(DEPTH)d)
+}
+'''
+
 def main():
     out = os.path.join(os.path.dirname(os.path.abspath(__file__)), '..', 'harness')
-    for prop, what, body, depth in [("C05", "sets and set algebra", C05, 3), ("C04", "hashes", C04, 2), ("C02", "strings and counters", C02, 2)]:
+    for prop, what, body, depth in [("C05", "sets and set algebra", C05, 3), ("C04", "hashes", C04, 2), ("C02", "strings and counters", C02, 2), ("C06", "keyspace commands: COPY/RENAME/DEL with in-place writers", C06, 3)]:
         d = dict(PROP=prop, WHAT=what, DEPTH=depth)
         text = CORE % d + body % d
         open(os.path.join(out, prop + '_bounded_test.go'), 'w').write(text)
